@@ -66,8 +66,10 @@ class X:
         self.o_kind = o_kind or kind
         self.p = None       # proxy of s
         self.fp = None      # flow proxy of s
+        self.ms = None      # MultiStream.from_streams([s, o])
         self.data = None    # StreamData
-        self.handles = {}   # name -> stream object that must also read fresh at the end
+        self.linked = False  # s shares data with o (link_with)
+        self.early = False   # the canary of this path sits on the early side path
         self.step = 0
 
     def leaf(self, base, **kw):
@@ -169,7 +171,7 @@ def apply(x, tok):
     multi = isinstance(s, tmo.MultiStream)
     op, _, arg = tok.partition(':')
     lab = f'step{k} {tok}'
-    if op in READS_OTHER:               # frame: these take the other stream as a source only
+    if op in READS_OTHER and not x.linked:      # frame: these take the (independent) other stream as a source only
         o = x.other()
         pre_o = state_of(o)
         ok = _apply(x, tok, op, arg, lab, s, multi)
@@ -251,8 +253,10 @@ def _apply(x, tok, op, arg, lab, s, multi):
         o = x.other()
         if type(o) is not type(s): return False
         s.link_with(o)
+        x.linked = True
     elif op == 'unlink':
         s.unlink()
+        x.linked = False
     elif op == 'oT':
         x.other().T = x.leaf('T', lo=0., lo_strict=True)
     elif op == 'ofl':
@@ -273,6 +277,20 @@ def _apply(x, tok, op, arg, lab, s, multi):
     elif op == 'fpfl':
         if x.fp is None: return False
         _set_flow(x, x.fp, 'Ethanol', arg or 'pos')
+    elif op == 'fromstreams':           # a MultiStream assembled from s and the other stream (shares their rows and T, P)
+        o = x.other()
+        if multi or isinstance(o, tmo.MultiStream) or o.phase == s.phase: return False
+        x.ms = tmo.MultiStream.from_streams([s, o])
+        x.linked = True
+    elif op == 'mr':
+        if x.ms is None: return False
+        read(x, x.ms, arg, lab)
+    elif op == 'mT':
+        if x.ms is None: return False
+        x.ms.T = x.leaf('T', lo=0., lo_strict=True)
+    elif op == 'mfl':
+        if x.ms is None: return False
+        x.ms.imol[s.phase, 'Ethanol'] = x.leaf('n', lo=0., lo_strict=True)
     elif op == 'vfl':                   # write through a phase view
         if not multi or arg not in s.phases: return False
         s[arg].imol['Ethanol'] = x.leaf('n', lo=0., lo_strict=True)
@@ -330,20 +348,37 @@ def final_reads(x, props, label='final'):
     if x.o is not None:
         for p in props:
             read(x, x.o, p, f'{label} other')
+    if x.ms is not None:
+        for p in props:
+            read(x, x.ms, p, f'{label} from_streams')
 
 
 def _canary(x, prop='H'):
-    """Deliberately wrong clause (vacuity guard): the value read at the end of the history is off by one."""
+    """Deliberately wrong clause at the end of a history (vacuity guard): the value read is off by one.
+    Only for single-phase streams; see _early_canary."""
     w = x.w; s = x.s
+    if x.early: return
     val = getattr(s, prop)
     if val is None:      # empty stream: per-mole properties are undefined
         w.canary(f'canary: {prop} is off by one', w.eq(val, 1.))
-    elif isinstance(s, tmo.MultiStream):
-        # same wrong clause written on one term: with several phases the two sides of `read = fresh + 1` are large
-        # nonlinear terms and the *refutation* (a model search) timed out now and then on a loaded machine
-        w.canary(f'canary: {prop} is off by one', w.eq(val, val + 1.))
     else:
         w.canary(f'canary: {prop} is off by one', w.eq(val, getattr(fresh_of(s), prop) + 1.))
+
+
+def _early_canary(x, prop='H'):
+    """
+    Multi-phase streams: refuting a wrong clause is a model search over the whole path condition, which is
+    nonlinear (n_i / sum n) and timed out now and then at the end of long paths on a loaded machine.  The wrong
+    clause is therefore put on a side path that ends right after the world is built (the explorer takes both
+    sides of the switch; natively the switch is 0 and the history runs).
+    """
+    w = x.w
+    if not isinstance(x.s, tmo.MultiStream): return
+    x.early = True
+    if w.real('canary.switch') > 0.:
+        val = getattr(x.s, prop)
+        w.canary(f'canary: {prop} is off by one', w.eq(val, getattr(fresh_of(x.s), prop) + 1.))
+        raise CheckAbort()
 
 
 # --------------------------------------------------------------------------- (1) _get_property from every reachable memo state
@@ -400,6 +435,7 @@ def getprop_configs(tier):
        assumptions=['A-models'])
 def get_property(w, cfg):
     x = X(w, cfg['kind'], n_present=cfg.get('present', 'pos+pos'))
+    _early_canary(x)
     for p in cfg['prime']:
         read(x, x.s, p, f'prime {p}')
     run_history(x, MOVES[cfg['move']])
@@ -412,8 +448,8 @@ def get_property(w, cfg):
         read(x, x.s, p, 'then')
     if cfg['move'] != 'empty':
         _canary(x, 'H')
-    else:
-        w.canary('canary: empty stream has H = 1', w.eq(x.s.H, 1.))
+    elif not x.early:
+        w.canary('canary: H is off by one', w.eq(x.s.H, 1.))
 
 
 # --------------------------------------------------------------------------- (2) every public mutator keeps the memo sound
@@ -487,6 +523,7 @@ def _final_props(x, prime):
        assumptions=['A-models', 'A-root'])
 def mutators(w, cfg):
     x = X(w, cfg['kind'])
+    _early_canary(x)
     run_history(x, cfg['pre'])
     for p in cfg['prime']:
         read(x, x.s, p, f'prime {p}')
@@ -506,10 +543,11 @@ SHARERS = {
     'link_with': ('link', 'or', ['oT', 'ofl'], 'lm'),
     'flow_proxy': ('fproxy', 'fpr', ['fpfl'], 'lm'),
     'phase view': (None, 'vr:l', ['vfl:l', 'vT:l'], 'm'),
+    'from_streams': ('fromstreams', 'mr', ['mT', 'mfl'], 'l'),
 }
 
 
-_READS = ('r', 'pr', 'or', 'fpr', 'vr')
+_READS = ('r', 'pr', 'or', 'fpr', 'vr', 'mr')
 
 
 def _shared_sequences(share, depth, props, own_muts=('T', 'fl'), other_muts=None):
@@ -563,17 +601,18 @@ def shared_configs(tier):
                     if when != 'before' and (not q[0].startswith('r:') or (tier == 'quick' and len(q) < 3)): continue
                     ops = ([ctor] + q) if when == 'before' else ([q[0], ctor] + q[1:])
                     out.append({'name': f'kind={kind};share={share};ctor={when};ops={",".join(q)}', 'kind': kind, 'ops': [o for o in ops if o],
-                                'final': props[0]})
+                                'final': props[0], 'o_kind': 'g' if share == 'from_streams' else kind})
     return out
 
 
 @group('C14/shared', configs=shared_configs,
        functions=['thermosteam._stream:Stream.proxy', 'thermosteam._stream:Stream.link_with', 'thermosteam._stream:Stream.flow_proxy',
-                  'thermosteam._multi_stream:MultiStream.__getitem__', 'thermosteam._stream:Stream._get_property',
+                  'thermosteam._multi_stream:MultiStream.__getitem__', 'thermosteam._multi_stream:MultiStream.from_streams', 'thermosteam._stream:Stream._get_property',
                   'thermosteam._multi_stream:MultiStream._get_property'],
        assumptions=['A-models'])
 def shared(w, cfg):
-    x = X(w, cfg['kind'])
+    x = X(w, cfg['kind'], o_kind=cfg['o_kind'])
+    _early_canary(x)
     run_history(x, cfg['ops'])
     props = [cfg['final']] + [p for p in ('H', 'sigma', 'V') if p != cfg['final']]
     final_reads(x, props)
@@ -659,6 +698,7 @@ def history_configs(tier):
        assumptions=['A-models'])
 def history(w, cfg):
     x = X(w, cfg['kind'])
+    _early_canary(x)
     run_history(x, cfg['ops'])
     props = [cfg['final']] + [p for p in ('H', 'sigma', 'V', 'S') if p != cfg['final']]
     final_reads(x, props)
